@@ -15,6 +15,8 @@
 #include "complex_promote.h"
 #include "Vector.h"
 
+#include <limits>
+
 //! Quaternion multiplication is isomorphic with that of 2x2 Unitary matrices
 /*!
   Although the product of two Hermitian matrices is not necessarily Hermitian
@@ -317,7 +319,14 @@ T fabs (const Quaternion<T,B>& j)
 template<typename T, QBasis B>
 const Quaternion<T,B> sqrt (const Quaternion<T,B>& h)
 {
-  T root_det = sqrt( det(h) );
+  T d = det(h);
+
+  /* the determinant of a singular (e.g. 100% polarized) positive
+     semi-definite quaternion can round slightly below zero */
+  if (d < 0 && -d <= 4 * std::numeric_limits<T>::epsilon() * h.s0 * h.s0)
+    d = 0;
+
+  T root_det = sqrt( d );
   T scalar = sqrt( 0.5 * (h.s0 + root_det) );
 
   if (scalar == 0.0)
